@@ -377,3 +377,167 @@ theorem foldl_add_eq (init : Int) (xs : List Int) : xs.foldl (· + ·) init = in
     omega
 
 end SkNet.ParFor
+
+namespace SkNet.ParFor
+
+/-! ### tightness of the descriptor check: a rejected access pattern has a racy instance -/
+
+/-- element `c` is one that index class `idx` may denote at iteration `i` -/
+def instAt (fx : String → Nat) (i : Nat) (idx : Idx) (c : Nat) : Prop :=
+  match idx with
+  | .own k => c = i + k
+  | .fixed x => c = fx x
+  | .indirect _ => True
+
+theorem conforms_load (fx) (i : Nat) (arr : String) (idx : Idx) (c : Nat) (h : instAt fx i idx c) :
+    Conforms fx i (.load arr idx) (.load (arr, c)) := by
+  cases idx <;> simp_all [Conforms, instAt]
+
+theorem conforms_store (fx) (i : Nat) (arr : String) (idx : Idx) (c : Nat) (f) (h : instAt fx i idx c) :
+    Conforms fx i (.store arr idx) (.store (arr, c) f) := by
+  cases idx <;> simp_all [Conforms, instAt]
+
+/-- Two index classes that are not "the loop variable plus the same constant" can denote the same element in two
+    different iterations. -/
+theorem exists_collision (ia ib : Idx) (h : ¬ ∃ k, ia = .own k ∧ ib = .own k) :
+    ∃ (fx : String → Nat) (T U c : Nat), T ≠ U ∧ instAt fx T ia c ∧ instAt fx U ib c := by
+  cases ia with
+  | own k' =>
+    cases ib with
+    | own k =>
+      have hne : k' ≠ k := fun e => h ⟨k, by rw [e], rfl⟩
+      exact ⟨fun _ => 0, k, k', k + k', fun e => hne e.symm, by simp [instAt], by simp [instAt]; omega⟩
+    | fixed x => exact ⟨fun _ => k', 0, 1, k', by decide, by simp [instAt], by simp [instAt]⟩
+    | indirect x => exact ⟨fun _ => 0, 0, 1, k', by decide, by simp [instAt], by simp [instAt]⟩
+  | fixed x' =>
+    cases ib with
+    | own k => exact ⟨fun _ => k + 1, 0, 1, k + 1, by decide, by simp [instAt], by simp [instAt]; omega⟩
+    | fixed x => exact ⟨fun _ => 0, 0, 1, 0, by decide, by simp [instAt], by simp [instAt]⟩
+    | indirect x => exact ⟨fun _ => 0, 0, 1, 0, by decide, by simp [instAt], by simp [instAt]⟩
+  | indirect x' =>
+    cases ib with
+    | own k => exact ⟨fun _ => 0, 0, 1, 1 + k, by decide, by simp [instAt], by simp [instAt]⟩
+    | fixed x => exact ⟨fun _ => 0, 0, 1, 0, by decide, by simp [instAt], by simp [instAt]⟩
+    | indirect x => exact ⟨fun _ => 0, 0, 1, 0, by decide, by simp [instAt], by simp [instAt]⟩
+
+/-- iteration `T` executes `eT`, iteration `U` executes `eU`, nothing else happens -/
+def twoIter (T U : Nat) (eT eU : Ev) : Nat → List Ev :=
+  fun i => if i = T then [eT] else if i = U then [eU] else []
+
+theorem twoIter_conforms (l : Loop) (fx) (T U : Nat) (eT eU : Ev)
+    (hT : ∃ a ∈ l.accs, Conforms fx T a eT) (hU : ∃ a ∈ l.accs, Conforms fx U a eU) :
+    ConformsTo l fx (twoIter T U eT eU) := by
+  intro i e he
+  unfold twoIter at he
+  split at he
+  · rename_i h; subst h
+    simp only [List.mem_cons, List.not_mem_nil, or_false] at he
+    subst he; exact hT
+  · split at he
+    · rename_i h; subst h
+      simp only [List.mem_cons, List.not_mem_nil, or_false] at he
+      subst he; exact hU
+    · simp at he
+
+theorem twoIter_race (T U : Nat) (hTU : T ≠ U) (loc : Loc) (f) (eU : Ev) (hloc : eU.loc = loc) :
+    ¬ RaceFree (twoIter T U (.store loc f) eU) := by
+  intro h
+  refine h T U loc hTU ⟨.store loc f, by simp [twoIter], rfl, rfl⟩ ⟨eU, ?_, hloc⟩
+  have : U ≠ T := fun e => hTU e.symm
+  simp [twoIter, this]
+
+theorem twoIter_race' (T U : Nat) (hTU : T ≠ U) (loc : Loc) (f) (eT : Ev) (hloc : eT.loc = loc) :
+    ¬ RaceFree (twoIter T U eT (.store loc f)) := by
+  intro h
+  have hUT : U ≠ T := fun e => hTU e.symm
+  refine h U T loc hUT ⟨.store loc f, by simp [twoIter, hUT], rfl, rfl⟩ ⟨eT, by simp [twoIter], hloc⟩
+
+theorem exists_store_of_stored (l : Loop) (arr : String) (h : arr ∈ l.storedArrays) :
+    ∃ idx, Acc.store arr idx ∈ l.accs := by
+  unfold Loop.storedArrays at h
+  rw [List.mem_filterMap] at h
+  obtain ⟨a, ha, hs⟩ := h
+  cases a <;> simp at hs
+  rename_i arr' idx
+  subst hs
+  exact ⟨idx, ha⟩
+
+theorem storeOff_none_not_own (l : Loop) (arr : String) (k : Nat) (hn : l.storeOff arr = none)
+    (h : Acc.store arr (.own k) ∈ l.accs) : False := by
+  unfold Loop.storeOff at hn
+  rw [List.findSome?_eq_none_iff] at hn
+  have := hn _ h
+  simp at this
+
+end SkNet.ParFor
+
+namespace SkNet.ParFor
+
+theorem exists_bad_site (l : Loop) (h : l.raceFree = false) : ∃ a ∈ l.accs, l.siteOk a = false := by
+  unfold Loop.raceFree at h
+  rw [List.all_eq_false] at h
+  obtain ⟨a, ha, hs⟩ := h
+  exact ⟨a, ha, by simpa using hs⟩
+
+/-- **Tightness of the descriptor check.** If a descriptor is rejected because of an array access (every site that
+    is not an array access passes on its own), some loop conforming to it has a race. -/
+theorem desc_raceFree_tight_aux (l : Loop) (hother : ∀ a ∈ l.accs, a.arr? = none → l.siteOk a = true)
+    (h : l.raceFree = false) : ∃ (fx : String → Nat) (prog : Nat → List Ev), ConformsTo l fx prog ∧ ¬ RaceFree prog := by
+  obtain ⟨a, ha, hbad⟩ := exists_bad_site l h
+  cases a with
+  | load arr i =>
+    simp only [Loop.siteOk, Bool.or_eq_false_iff, Bool.not_eq_false'] at hbad
+    obtain ⟨hst, hm⟩ := hbad
+    have hstored : arr ∈ l.storedArrays := by simpa [List.contains_iff_mem] using hst
+    cases hso : l.storeOff arr with
+    | some k =>
+      rw [hso] at hm
+      have hne : i ≠ .own k := by simpa using hm
+      have hb := storeOff_of_mem l arr k hso
+      obtain ⟨fx, T, U, c, hTU, hiT, hiU⟩ := exists_collision i (.own k)
+        (by rintro ⟨k0, h1, h2⟩; cases h2; exact hne h1)
+      exact ⟨fx, twoIter T U (.load (arr, c)) (.store (arr, c) (fun _ => 0)),
+        twoIter_conforms l fx T U _ _ ⟨_, ha, conforms_load fx T arr i c hiT⟩
+          ⟨_, hb, conforms_store fx U arr (.own k) c _ hiU⟩,
+        twoIter_race' T U hTU (arr, c) _ _ rfl⟩
+    | none =>
+      obtain ⟨ib, hb⟩ := exists_store_of_stored l arr hstored
+      have hnot : ¬ ∃ k, i = .own k ∧ ib = .own k := by
+        rintro ⟨k, _, h2⟩
+        subst h2
+        exact storeOff_none_not_own l arr k hso hb
+      obtain ⟨fx, T, U, c, hTU, hiT, hiU⟩ := exists_collision i ib hnot
+      exact ⟨fx, twoIter T U (.load (arr, c)) (.store (arr, c) (fun _ => 0)),
+        twoIter_conforms l fx T U _ _ ⟨_, ha, conforms_load fx T arr i c hiT⟩
+          ⟨_, hb, conforms_store fx U arr ib c _ hiU⟩,
+        twoIter_race' T U hTU (arr, c) _ _ rfl⟩
+  | store arr i =>
+    simp only [Loop.siteOk] at hbad
+    cases hso : l.storeOff arr with
+    | some k =>
+      rw [hso] at hbad
+      have hne : i ≠ .own k := by simpa using hbad
+      have hb := storeOff_of_mem l arr k hso
+      obtain ⟨fx, T, U, c, hTU, hiT, hiU⟩ := exists_collision i (.own k)
+        (by rintro ⟨k0, h1, h2⟩; cases h2; exact hne h1)
+      exact ⟨fx, twoIter T U (.store (arr, c) (fun _ => 0)) (.store (arr, c) (fun _ => 1)),
+        twoIter_conforms l fx T U _ _ ⟨_, ha, conforms_store fx T arr i c _ hiT⟩
+          ⟨_, hb, conforms_store fx U arr (.own k) c _ hiU⟩,
+        twoIter_race T U hTU (arr, c) _ _ rfl⟩
+    | none =>
+      have hnot : ¬ ∃ k, i = .own k ∧ i = .own k := by
+        rintro ⟨k, h1, _⟩
+        subst h1
+        exact storeOff_none_not_own l arr k hso ha
+      obtain ⟨fx, T, U, c, hTU, hiT, hiU⟩ := exists_collision i i hnot
+      exact ⟨fx, twoIter T U (.store (arr, c) (fun _ => 0)) (.store (arr, c) (fun _ => 1)),
+        twoIter_conforms l fx T U _ _ ⟨_, ha, conforms_store fx T arr i c _ hiT⟩
+          ⟨_, ha, conforms_store fx U arr i c _ hiU⟩,
+        twoIter_race T U hTU (arr, c) _ _ rfl⟩
+  | priv v => have := hother _ ha rfl; rw [this] at hbad; cases hbad
+  | reduction v op ex => have := hother _ ha rfl; rw [this] at hbad; cases hbad
+  | method o m mu => have := hother _ ha rfl; rw [this] at hbad; cases hbad
+  | call f p => have := hother _ ha rfl; rw [this] at hbad; cases hbad
+  | unknown w => have := hother _ ha rfl; rw [this] at hbad; cases hbad
+
+end SkNet.ParFor
